@@ -44,9 +44,9 @@ func (c14) Assumptions() []string {
 }
 func (c14) NumCases(tier string, _ int64) int {
 	if tier == "thorough" {
-		return 60000
+		return 400000
 	}
-	return 6000
+	return 15000
 }
 func (c14) Exhaustive(string) bool { return false }
 func (c14) Floors(string) []runner.Floor {
